@@ -359,6 +359,18 @@ pub fn compare_run(scn: &Scenario, real: RealRun, opts: CompareOpts) -> Result<O
                         describe()
                     ));
                 }
+                // an explicit `panics(msg)` response carries the message of the segment the chain assigns
+                if *k == PanicKind::Explicit {
+                    if let Some(t) = model.last_explicit {
+                        let want = format!("explicit-panic-tag-{t}");
+                        if !text.split(|c: char| !c.is_ascii_alphanumeric() && c != '-').any(|w| w == want) {
+                            return Err(format!(
+                                "{}: the panic does not carry the message of the segment that answers this match ({want:?}): {text:?}",
+                                describe()
+                            ));
+                        }
+                    }
+                }
                 // every mock-induced panic about a call names the method
                 if !text.contains(FACTS[call.method as usize].path) {
                     return Err(format!(
